@@ -496,6 +496,20 @@ _TEXT = st.text(st.one_of(
 # characters that codecs, JSON layers and text APIs like to treat specially:
 # they are ordinary characters of a protocol string and must survive in
 # any position (a BOM-stripping or whitespace-stripping decoder drops them)
+# text that looks like something with a canonical form (an id, a number, a
+# namespaced key, JSON, a path): a String field carries it verbatim
+LOOKALIKES = [
+    '123456781234567812345678123456ab',
+    '12345678-1234-5678-1234-5678123456AB',
+    '{12345678-1234-5678-1234-567812345678}',
+    'urn:uuid:12345678-1234-5678-1234-567812345678',
+    '007', '1e3', '+5', '0x1F', ' true', 'NaN', 'None', 'null',
+    'minecraft:stone', 'MINECRAFT:Stone', 'stone', ':stone', 'a:b:c',
+    '{ "text" : "x" }', '{"text":"x"} ', '"x"', 'a//b/../c', 'C:\\x',
+    'Stra\u00dfe', 'A\u030a', '\u212b', '\uff21', 'x\t', '%s %d {0}',
+    '\\n', 'localhost.', 'EXAMPLE.com:25565', '&amp;', '\u00a7cred',
+]
+
 SPECIAL_CHARS = ['\ufeff', '\x00', '\ufffd', '\u2028', '\u2029', '\x85',
                  '\r', '\n', '\t', ' ', '\ufffe', '\uffff', '\u200b',
                  '\ud7ff', '\ue000', '\\', '"', '\x7f', '\xa0']
@@ -548,8 +562,10 @@ def value_strategy(spec, small=False):
     if n == 'String':
         if small:
             return st.one_of(_TEXT.map(lambda s: s[:6]),
-                             _SPECIAL_TEXT.map(lambda s: s[:6]))
-        return st.one_of(_TEXT, _SPECIAL_TEXT, st.sampled_from(
+                             _SPECIAL_TEXT.map(lambda s: s[:6]),
+                             st.sampled_from(LOOKALIKES))
+        return st.one_of(_TEXT, _SPECIAL_TEXT, st.sampled_from(LOOKALIKES),
+                         st.sampled_from(
             [126, 127, 128, 129, 300]).flatmap(_sized_text))
     if n == 'UUID':
         return st.one_of(
